@@ -6,9 +6,9 @@ import ParsleyVerif.Proofs.TerminalParse
 namespace PV
 open PV.Text
 
-/-- nodes start at `pos` and end inside the input; errors are positioned inside the input -/
+/-- nodes are terminal leaves, start at `pos` and end inside the input; errors are positioned inside the input -/
 def Ranged (l : Bytes) (pos : Nat) : TermOut → Prop
-  | .node n => n.pos = pos ∧ pos ≤ n.rpos ∧ n.rpos ≤ pos + l.length
+  | .node n => (n.pos = pos ∧ pos ≤ n.rpos ∧ n.rpos ≤ pos + l.length) ∧ ∃ tok v p r, n = .term tok v p r
   | .err e => pos ≤ e.pos ∧ e.pos ≤ pos + l.length
   | .panic _ => True
 
@@ -25,7 +25,9 @@ theorem ranged_other (l : Bytes) (pos q : Nat) (msg : String) (h1 : pos ≤ q) (
 
 theorem ranged_node (l : Bytes) (pos k : Nat) (tok : Bytes) (v : Val) (h : k ≤ l.length) :
     Ranged l pos (.node (.term tok v pos (pos + k))) ∧ NoPanic (.node (.term tok v pos (pos + k))) := by
-  simp [Ranged, NoPanic, Node.pos, Node.rpos]; omega
+  refine ⟨⟨⟨rfl, ?_, ?_⟩, _, _, _, _, rfl⟩, trivial⟩
+  · show pos ≤ pos + k; omega
+  · show pos + k ≤ pos + l.length; omega
 
 theorem head_drop_lt (r : Bytes) (n q : Nat) (h : (r.drop n).head? = some q) : n < r.length := by
   cases hd : r.drop n with
